@@ -529,6 +529,7 @@ int main(int argc, char **argv) {
         if (!strcmp(argv[i], "--nofork")) nofork = 1;
         else if (!strcmp(argv[i], "--cpu-limit") && i + 1 < argc) cpu_limit = atol(argv[++i]);
     }
+    if (getenv("VH_FILL")) vp_fill_mode = atoi(getenv("VH_FILL"));   /* default fill of fresh allocations (-1: leave as is) */
     size_t len;
     char *all = slurp(argv[1], &len);
     int logfd = open(argv[2], O_WRONLY | O_CREAT | O_TRUNC | O_APPEND, 0644);
